@@ -469,14 +469,14 @@ def _run_history(args):
 
     def boom(*a):
         raise TimeoutError("no answer within 40 s (time_limit=20): a native loop over the object graph does not end")
-    signal.signal(signal.SIGALRM, boom)
-    signal.alarm(40)
+    signal.signal(signal.SIGPROF, boom)      # CPU-time watchdog (independent of the load of the machine)
+    signal.setitimer(signal.ITIMER_PROF, 40)
     try:
         out = str(Context(time_limit=20).eval(h.js()))
     except BaseException as e:  # noqa
         out = "CRASH " + type(e).__name__ + ": " + str(e)[:200]
     finally:
-        signal.alarm(0)
+        signal.setitimer(signal.ITIMER_PROF, 0)
     lines = out.split("\n")
     known = False
     for i, want in enumerate(exp):
